@@ -4,3 +4,5 @@ import PlcModel.SemTok
 import PlcModel.Lsp
 import PlcModel.Graph
 import PlcModel.Analyze
+import PlcModel.Cli
+import PlcModel.Decode
